@@ -2,31 +2,70 @@
 
 stdin: {"ts_window": [lo, hi], "ts_ns": [...], "ts_floats": [[m, e], ...], "ts_exact": [["int"|"dec", str], ...],
         "ts_lex": [...], "dec_vals": [[neg, digits, exp], ...], "dec_lex": [...], "int_vals": [...], "int_lex": [...],
-        "bool_lex": [...], "enum_mut": seed, "dur_vals": [["float"|"int"|"dec", repr], ...], "dur_lex": [...],
-        "dt_vals": [...], "dt_lex": [...], "attr": [...]}
+        "bool_lex": [...], "enum": seed, "dur_vals": [["float"|"int"|"dec", repr], ...], "dur_lex": [...],
+        "dt_vals": [...], "dt_lex": [...], "wiring": 1}
 stdout (last line): one JSON object with one list per stream.  Floats never leave this process as floats:
 they are returned as (mantissa, exponent) with value = mantissa * 2**exponent, mantissa < 2**53.
+
+The script is TOTAL: every call into the library goes through call() / guarded(), so an exception of any kind, a value
+of an unexpected type, a non-finite float or a call that does not come back in time becomes the RESULT OF THAT CASE
+(a string 'REJECT' | 'OVERFLOW' | 'CRASH:<exception>' | 'BADTYPE:<type>' | 'NONFINITE:<x>' | 'TIMEOUT' | 'SKIPPED:<why>')
+which the oracle judges; a stream whose driver code itself fails is reported in out['_stream_errors'] and the other
+streams still run.
 """
 import datetime
 import enum
 import json
 import math
+import resource
+import signal
 import sys
 from decimal import Decimal
+
+try:     # a converter that allocates without bound (format(Decimal('1E999999999999'), 'f')) gets a MemoryError, not the OOM killer
+    resource.setrlimit(resource.RLIMIT_AS, (6 << 30, 6 << 30))
+except Exception:  # noqa: BLE001
+    pass
 
 from sdc11073.xml_types import dataconverters as dc
 from sdc11073.xml_types import isoduration as iso
 
 req = json.load(sys.stdin)
 out = {}
+stream_errors = {}
+ERR_PREFIX = ('REJECT', 'OVERFLOW', 'CRASH', 'BADTYPE', 'NONFINITE', 'TIMEOUT', 'SKIPPED')
+CALL_SECONDS = 10
 
 
-def me(x: float):
-    """float -> [mantissa, exponent] exactly (mantissa odd or zero is NOT required; sign in mantissa)."""
+class _Timeout(BaseException):
+    pass
+
+
+def _alarm(signum, frame):
+    raise _Timeout
+
+
+signal.signal(signal.SIGALRM, _alarm)
+
+
+def is_err(x):
+    return isinstance(x, str) and x.startswith(ERR_PREFIX)
+
+
+def me(x):
+    """float -> [mantissa, exponent] exactly (sign in the mantissa); non-finite floats become an error token."""
+    if not isinstance(x, float):
+        return badtype(x)
+    if not math.isfinite(x):
+        return 'NONFINITE:' + repr(x)
     if x == 0:
         return [0, 0]
     m, e = math.frexp(x)
     return [int(m * (1 << 53)), e - 53]
+
+
+def badtype(x):
+    return 'BADTYPE:' + type(x).__name__ + ':' + repr(x)[:60]
 
 
 def err(exc):
@@ -38,10 +77,40 @@ def err(exc):
 
 
 def guarded(f, *a):
+    """f(*a), or the error token of whatever went wrong"""
+    signal.setitimer(signal.ITIMER_REAL, CALL_SECONDS)
     try:
         return f(*a)
+    except _Timeout:
+        return 'TIMEOUT'
     except Exception as exc:  # noqa: BLE001
         return err(exc)
+    finally:
+        signal.setitimer(signal.ITIMER_REAL, 0)
+
+
+def typed(x, *types):
+    """x if it is an error token or an instance of one of the types (bool is not an int here), else a BADTYPE token"""
+    if is_err(x):
+        return x
+    if isinstance(x, bool) and bool not in types:
+        return badtype(x)
+    return x if isinstance(x, types) else badtype(x)
+
+
+def stream(name):
+    """decorator: run the stream if requested; a failure of the driver code is recorded, not raised"""
+    def deco(fn):
+        if name in req:
+            try:
+                fn(req[name])
+            except BaseException as exc:  # noqa: BLE001
+                if isinstance(exc, (KeyboardInterrupt, SystemExit)):
+                    raise
+                import traceback
+                stream_errors[name] = ''.join(traceback.format_exception(exc))[-1500:]
+        return fn
+    return deco
 
 
 T = dc.TimestampConverter
@@ -50,109 +119,167 @@ I = dc.IntegerConverter
 B = dc.BooleanConverter
 DU = dc.DurationConverter
 
-# ------------------------------------------------------------------ timestamps
-if 'ts_window' in req:
-    lo, hi = req['ts_window']
-    mants, exps, backs = [], [], []
-    for n in range(lo, hi):
-        x = T.to_py(str(n))
-        m, e = me(x)
-        mants.append(m)
-        exps.append(e)
-        backs.append(int(T.to_xml(x)))
-    out['ts_window'] = {'m': mants, 'e': exps, 'back': backs}
 
-if 'ts_ns' in req:
+# ------------------------------------------------------------------ timestamps
+def ts_back(x):
+    """to_xml of a float read by to_py, as an int (or an error token)"""
+    s = typed(guarded(T.to_xml, x), str)
+    if is_err(s):
+        return s
+    return typed(guarded(int, s), int)
+
+
+@stream('ts_window')
+def _(w):
+    lo, hi = w
+    mants, exps, backs, odd = [], [], [], {}
+    for n in range(lo, hi):
+        x = typed(guarded(T.to_py, str(n)), float)
+        mx = x if is_err(x) else me(x)
+        if is_err(mx):
+            odd[str(n)] = mx
+            mants.append(0)
+            exps.append(0)
+            backs.append(-1)
+            continue
+        b = ts_back(x)
+        if is_err(b):
+            odd[str(n)] = b
+            b = -1
+        mants.append(mx[0])
+        exps.append(mx[1])
+        backs.append(b)
+    out['ts_window'] = {'m': mants, 'e': exps, 'back': backs, 'odd': odd}
+
+
+@stream('ts_ns')
+def _(ns):
     res = []
-    for n in req['ts_ns']:
-        x = T.to_py(str(n))
-        res.append(me(x) + [int(T.to_xml(x))])
+    for n in ns:
+        x = typed(guarded(T.to_py, str(n)), float)
+        mx = x if is_err(x) else me(x)
+        if is_err(mx):
+            res.append([0, 0, -1, mx])
+            continue
+        b = ts_back(x)
+        res.append(mx + ([b] if not is_err(b) else [-1, b]))
     out['ts_ns'] = res
 
-if 'ts_floats' in req:
+
+@stream('ts_floats')
+def _(fl):
     res = []
-    for m, e in req['ts_floats']:
+    for m, e in fl:
         x = math.ldexp(m, e)
-        s = guarded(T.to_xml, x)
-        if not isinstance(s, str) or s.startswith(('REJECT', 'OVERFLOW', 'CRASH')):
-            res.append([s])
+        s = typed(guarded(T.to_xml, x), str)
+        n = s if is_err(s) else typed(guarded(int, s), int)
+        if is_err(n):
+            res.append([n])
             continue
-        res.append([int(s)] + me(T.to_py(s)))
+        back = typed(guarded(T.to_py, s), float)
+        mb = back if is_err(back) else me(back)
+        res.append([mb] if is_err(mb) else [n] + mb)
     out['ts_floats'] = res
 
-if 'ts_exact' in req:
+
+@stream('ts_exact')
+def _(cases):
     res = []
-    for kind, txt in req['ts_exact']:
+    for kind, txt in cases:
         v = int(txt) if kind == 'int' else Decimal(txt)
-        res.append(guarded(lambda: int(T.to_xml(v))))
+        s = typed(guarded(T.to_xml, v), str)
+        res.append(s if is_err(s) else typed(guarded(int, s), int))
     out['ts_exact'] = res
 
-if 'ts_lex' in req:
+
+@stream('ts_lex')
+def _(cases):
     res = []
-    for s in req['ts_lex']:
-        r = guarded(T.to_py, s)
-        res.append(me(r) if isinstance(r, float) else r)
+    for s in cases:
+        r = typed(guarded(T.to_py, s), float)
+        res.append(r if is_err(r) else me(r))
     out['ts_lex'] = res
 
 
 # ------------------------------------------------------------------ decimals
+MAX_EXP = 5000      # Decimals beyond this are never formatted (a string of that many zeros is not a conversion result)
+
+
 def dec_tuple(d):
-    if not isinstance(d, Decimal):
+    if is_err(d):
         return d
+    if not isinstance(d, Decimal):
+        return badtype(d)
     if not d.is_finite():
         return 'NONFINITE:' + str(d)
     t = d.as_tuple()
     return [bool(t.sign), ''.join(map(str, t.digits)), t.exponent]
 
 
-if 'dec_vals' in req:
+def dec_to_xml(d):
+    if not isinstance(d, Decimal) or not d.is_finite():
+        return None
+    t = d.as_tuple()
+    if abs(t.exponent) > MAX_EXP or len(t.digits) > MAX_EXP:
+        return 'SKIPPED:huge-exponent'
+    return typed(guarded(D.to_xml, d), str)
+
+
+@stream('dec_vals')
+def _(cases):
     res = []
-    for neg, digs, e in req['dec_vals']:
+    for neg, digs, e in cases:
         d = Decimal((1 if neg else 0, tuple(int(c) for c in digs), e))
-        s = guarded(D.to_xml, d)
-        back = dec_tuple(guarded(D.to_py, s)) if isinstance(s, str) else None
+        s = typed(guarded(D.to_xml, d), str)
+        back = None if is_err(s) else dec_tuple(guarded(D.to_py, s))
         res.append([s, back])
     out['dec_vals'] = res
 
-if 'dec_lex' in req:
+
+@stream('dec_lex')
+def _(cases):
     res = []
-    for s in req['dec_lex']:
+    for s in cases:
         d = guarded(D.to_py, s)
-        back = guarded(D.to_xml, d) if isinstance(d, Decimal) else None
-        res.append([dec_tuple(d), back])
+        res.append([dec_tuple(d), dec_to_xml(d)])
     out['dec_lex'] = res
 
+
 # ------------------------------------------------------------------ integers
-if 'int_vals' in req:
+@stream('int_vals')
+def _(cases):
     res = []
-    for n in req['int_vals']:
-        s = I.to_xml(int(n))
-        res.append([s, str(guarded(I.to_py, s))])
+    for n in cases:
+        s = typed(guarded(I.to_xml, int(n)), str)
+        back = None if is_err(s) else typed(guarded(I.to_py, s), int)
+        res.append([s, back if back is None or is_err(back) else str(back)])
     out['int_vals'] = res
 
-if 'int_lex' in req:
+
+@stream('int_lex')
+def _(cases):
     res = []
-    for s in req['int_lex']:
-        r = guarded(I.to_py, s)
-        res.append(str(r) if isinstance(r, int) and not isinstance(r, bool) else r)
+    for s in cases:
+        r = typed(guarded(I.to_py, s), int)
+        res.append(r if is_err(r) else str(r))
     out['int_lex'] = res
     # the unsigned flavours share IntegerConverter.to_py
     out['int_shared_to_py'] = (dc.UnsignedIntConverter.to_py is I.to_py) and (dc.UnsignedLongConverter.to_py is I.to_py)
 
+
 # ------------------------------------------------------------------ booleans
-if 'bool_lex' in req:
-    res = []
-    for s in req['bool_lex']:
-        r = guarded(B.to_py, s)
-        res.append(r if isinstance(r, (bool, str)) else 'CRASH:' + type(r).__name__)
-    out['bool_lex'] = res
-    out['bool_to_xml'] = [B.to_xml(True), B.to_xml(False)]
+@stream('bool_lex')
+def _(cases):
+    out['bool_lex'] = [typed(guarded(B.to_py, s), bool) for s in cases]
+    out['bool_to_xml'] = [typed(guarded(B.to_xml, True), str), typed(guarded(B.to_xml, False), str)]
+
 
 # ------------------------------------------------------------------ enumerations
-if 'enum' in req:
+@stream('enum')
+def _(seed):
     from sdc11073.xml_types import pm_types, msg_types
     import random
-    rng = random.Random(req['enum'])
+    rng = random.Random(seed)
     klasses = []
     for mod in (pm_types, msg_types):
         for name in sorted(dir(mod)):
@@ -167,14 +294,20 @@ if 'enum' in req:
         tests = list(lits)
         for v in lits[:6]:
             tests += [v.lower(), v.upper(), v + ' ', ' ' + v, v[:-1], v + v[-1:], '', k.__name__]
+        # near misses: member NAMES (python's Enum['NAME'] / getattr would accept them), white space of every kind,
+        # garbage after a valid literal and before one, a literal of the same class glued to another one
+        v = rng.choice(lits)
+        w = rng.choice(lits)
+        tests += [rng.choice(list(k)).name, k.__name__ + '.' + rng.choice(list(k)).name, v + '\n', '\t' + v, v + '\x0b', '\xa0' + v,
+                  v + 'x', 'x' + v, v + w, v + ' ' + w, v.swapcase(), v.capitalize(), v[:1] + ' ' + v[1:], v + '\x00', repr(v)]
         tests += [rng.choice(lits)[::-1], 'true', '0']
         cases = []
         for s in tests:
             r = guarded(conv.to_py, s)
             if isinstance(r, enum.Enum):
-                cases.append([s, conv.to_xml(r), r.value])
+                cases.append([s, typed(guarded(conv.to_xml, r), str), r.value if isinstance(r.value, str) else badtype(r.value)])
             else:
-                cases.append([s, r, None])
+                cases.append([s, r if is_err(r) else badtype(r), None])
         res.append({'class': k.__name__, 'lits': lits, 'cases': cases})
     out['enum'] = res
 
@@ -185,48 +318,53 @@ def td_us(seconds):
     return td.days * 86_400_000_000 + td.seconds * 1_000_000 + td.microseconds
 
 
-def dur_py(s):
-    r = DU.to_py(s)
-    # total_seconds() of a timedelta: the microsecond count is recovered exactly by the same formula
-    td = datetime.timedelta(seconds=r)
-    return [td_us(r), me(r)]
-
-
-if 'dur_vals' in req:
+@stream('dur_vals')
+def _(cases):
     res = []
-    for kind, txt in req['dur_vals']:
+    for kind, txt in cases:
         v = {'float': float, 'int': int, 'dec': Decimal}[kind](txt)
-        s = guarded(DU.to_xml, v)
-        if s in ('REJECT', 'OVERFLOW') or s.startswith('CRASH'):
+        s = typed(guarded(DU.to_xml, v), str)
+        if is_err(s):
             res.append([s, None, None, None])
             continue
-        back = guarded(DU.to_py, s)
-        want = datetime.timedelta(seconds=float(v)).total_seconds()
-        res.append([s, td_us(v), td_us(back) if isinstance(back, float) else back, back == want])
+        back = typed(guarded(DU.to_py, s), float)
+        want = guarded(lambda: datetime.timedelta(seconds=float(v)).total_seconds())
+        res.append([s, guarded(td_us, v), back if is_err(back) else guarded(td_us, back), (not is_err(back)) and back == want])
     out['dur_vals'] = res
 
-if 'dur_lex' in req:
+
+@stream('dur_lex')
+def _(cases):
     res = []
-    for s in req['dur_lex']:
-        r = guarded(DU.to_py, s)
-        if isinstance(r, float):
-            res.append([me(r), guarded(DU.to_xml, r)])
-        else:
+    for s in cases:
+        r = typed(guarded(DU.to_py, s), float)
+        if is_err(r):
             res.append([r, None])
+            continue
+        mr = me(r)
+        res.append([mr, None if is_err(mr) else typed(guarded(DU.to_xml, r), str)])
     out['dur_lex'] = res
 
 
 # ------------------------------------------------------------------ date / time
 def dt_tuple(x):
-    if not isinstance(x, iso.XsdDateInformation):
+    if is_err(x):
         return x
+    if not isinstance(x, iso.XsdDateInformation):
+        return badtype(x)
     t = None
-    if x.hour is not None:
-        t = [x.hour, x.minute, round(x.second * 1_000_000), Decimal(repr(x.second)).as_tuple().exponent >= -6]
+    if x.hour is not None or x.minute is not None or x.second is not None:
+        sec = me(x.second)
+        if is_err(sec) or not isinstance(x.hour, int) or not isinstance(x.minute, int):
+            return badtype((x.hour, x.minute, x.second))
+        t = [x.hour, x.minute, round(x.second * 1_000_000), Decimal(repr(x.second)).as_tuple().exponent >= -6, sec]
     tz = None
     if x.tz_info is not None:
         tz = int(x.tz_info.utcoffset(None).total_seconds()) // 60
-    return [x.year, x.month, x.day, t, x.end_of_day, tz]
+    for f in (x.year, x.month, x.day):
+        if f is not None and (not isinstance(f, int) or isinstance(f, bool)):
+            return badtype(f)
+    return [x.year, x.month, x.day, t, bool(x.end_of_day), tz]
 
 
 def dt_make(v):
@@ -236,27 +374,36 @@ def dt_make(v):
                                   tz_info=None if tz is None else datetime.timezone(datetime.timedelta(minutes=tz)))
 
 
-if 'dt_vals' in req:
+@stream('dt_vals')
+def _(cases):
     res = []
-    for v in req['dt_vals']:
+    for v in cases:
         x = guarded(dt_make, v)
         if not isinstance(x, iso.XsdDateInformation):
-            res.append([x, None, None])
+            res.append([x if is_err(x) else badtype(x), None, None])
             continue
-        s = str(x)
+        s = typed(guarded(str, x), str)
+        if is_err(s):
+            res.append([s, None, None])
+            continue
         back = guarded(iso.parse_date_time, s)
-        res.append([s, dt_tuple(back), back == x])
+        res.append([s, guarded(dt_tuple, back), guarded(lambda: back == x)])
     out['dt_vals'] = res
 
-if 'dt_lex' in req:
+
+@stream('dt_lex')
+def _(cases):
     res = []
-    for s in req['dt_lex']:
+    for s in cases:
         x = guarded(iso.parse_date_time, s)
-        res.append([dt_tuple(x), str(x) if isinstance(x, iso.XsdDateInformation) else None])
+        t = guarded(dt_tuple, x)
+        res.append([t, None if is_err(t) else typed(guarded(str, x), str)])
     out['dt_lex'] = res
 
+
 # ------------------------------------------------------------------ the attribute properties use these converters
-if 'wiring' in req:
+@stream('wiring')
+def _(_arg):
     from sdc11073.xml_types import xml_structure as xs
     w = {}
     for name, conv in (('TimestampAttributeProperty', 'TimestampConverter'), ('CurrentTimestampAttributeProperty', 'TimestampConverter'),
@@ -275,4 +422,7 @@ if 'wiring' in req:
             w[name] = 'CRASH:' + type(exc).__name__ + ':' + str(exc)[:80]
     out['wiring'] = w
 
+
+if stream_errors:
+    out['_stream_errors'] = stream_errors
 print(json.dumps(out))
